@@ -264,7 +264,8 @@ class World(object):
             self._event("PRINT_STARTED", Step(None), check=False)
             for c in cfg.get("preamble", ("G28", "G1 X10 Y10 Z1 F3000")):
                 self._gcode(c, Step(None), check=False)
-            self.f.update(x=Fr(10), y=Fr(10), z=Fr(1))
+            ox, oy = cfg.get("origin", (10, 10))
+            self.f.update(x=Fr(ox), y=Fr(oy), z=Fr(1))
         self.pm.msgs = []
 
     def install(self):
@@ -353,6 +354,9 @@ class World(object):
         v = (Fr(target_e) / unit) if eabs else ((Fr(target_e) - f["e"]) / unit)
         return "E" + fmt(v)
 
+    def estep(self):
+        return Fr(self.cfg.get("estep", 1))
+
     def pt(self, name):
         x, y = self.cfg.get("points", POINTS)[name]
         return Fr(x), Fr(y)
@@ -361,7 +365,13 @@ class World(object):
         """Command text for a file event, and the update of the nominal file model it implies."""
         k = ev[0]
         f = self.f
-        L = self.cfg.get("retract", 1)
+        L = Fr(self.cfg.get("retract", 1))
+        if k == "NUDGE":
+            ax = ev[1].lower()
+            return "G1 %s%s" % (ev[1], ev[2]), {ax: f[ax] + Fr(ev[2]) * (Fr(254, 10) if f["inch"] else 1)}
+        if k == "ESET":
+            unit = Fr(254, 10) if f["inch"] else Fr(1)
+            return "G92 E" + ev[1], dict(e=Fr(ev[1]) * unit)
         if k in ("TRAVEL", "PRINT", "WIPE", "TRAVELZ"):
             x, y = self.pt(ev[1])
             words = [self._word("X", x), self._word("Y", y)]
@@ -370,8 +380,8 @@ class World(object):
                 words.append(self._word("Z", ev[2]))
                 upd["z"] = Fr(ev[2])
             if k == "PRINT":
-                words.append(self._eword(f["e"] + 1))
-                upd["e"] = f["e"] + 1
+                words.append(self._eword(f["e"] + self.estep()))
+                upd["e"] = f["e"] + self.estep()
             if k == "WIPE":
                 words.append(self._eword(f["e"] - L))
                 upd["e"] = f["e"] - L
@@ -425,12 +435,12 @@ class World(object):
     def enabled(self, menu):
         out = []
         f = self.f
-        emax = self.cfg.get("emax", 3)
+        emax = Fr(self.cfg.get("emax", 3))
         maxreg = self.cfg.get("maxregions", 3)
         for i, ev in enumerate(menu):
             k = ev[0]
             if k in ("TRAVEL", "PRINT", "WIPE", "TRAVELZ", "ZMOVE", "XONLY", "YONLY", "ARC", "RETRACT",
-                     "RECOVER", "FWRETRACT", "FWRECOVER", "G92XYZ"):
+                     "RECOVER", "FWRETRACT", "FWRECOVER", "G92XYZ", "NUDGE", "ESET"):
                 if not (self.m_active and self.m_homed):
                     continue                               # the properties say "after homing"
             if k in ("TRAVEL", "PRINT", "WIPE"):
@@ -451,6 +461,10 @@ class World(object):
             if k == "PRINT" and (f["depth"] != 0 or f["fw"]):
                 continue
             if k in ("PRINT", "RECOVER") and f["e"] >= emax:
+                continue
+            if k == "NUDGE" and (f["abs"] or abs(f[ev[1].lower()] + Fr(ev[2]) - Fr(round(f[ev[1].lower()]))) > 1):
+                continue                                   # stay within 1 mm of the named point
+            if k == "ESET" and (not (f["abs"] or not self.sv.g90e) or f["depth"] != 0):
                 continue
             if k == "ESET0" and (f["e"] == 0 or not (f["abs"] or not self.sv.g90e)):
                 continue
@@ -967,7 +981,7 @@ class World(object):
                             self.viol("C04 forwarded extruding move %r pushes %s mm, the file specifies %s mm "
                                       "(forwarded %r)" % (c, float(dA), float(dB), f.fwd), self._detail(f))
                         st.tags.add("extruding-move-forwarded")
-            if not f.episode1 and abs(A.E - B.E) > TOL:
+            if not f.episode1 and abs(A.E - B.E) > TOL + abs(B.E) / 10 ** 12:
                 self.viol("C04 extruder coordinate outside a region: printer E=%s, file E=%s after %r -> %r"
                           % (float(A.E), float(B.E), f.cmd, f.fwd), self._detail(f))
             if f.closing:
@@ -1301,6 +1315,31 @@ class World(object):
                     self._c06_account_close(f, list(r[0]), "the end of the print")
                 elif f.result is not None:
                     self.viol("C06 script hook contributed %r although no episode was open" % (f.result,))
+
+    # ---- C07: synthesised commands are well-formed plain-decimal G-code
+    C07_RE = re.compile(r"^[GM][0-9]+(\.[0-9]+)?( [A-Z](-?[0-9]+(\.[0-9]+)?)?)*$")
+
+    def _c07_check_cmd(self, c, f):
+        if not self.C07_RE.match(c):
+            self.viol("C07 generated command %r (for %r) is not plain-decimal G-code: expected one G/M code followed by "
+                      "letter/number words in plain decimal notation" % (c, f.cmd), self._detail(f))
+        letters = [w[0] for w in c.split(" ")[1:]]
+        if len(letters) != len(set(letters)):
+            self.viol("C07 generated command %r (for %r) repeats a parameter letter" % (c, f.cmd), self._detail(f))
+
+    def _mon_c07(self, st):
+        enter, exit_ = self._c06_scripts()
+        for f in st.feeds:
+            if not f.active:
+                continue
+            emitted = list(f.fwd) if f.kind != "at" else list(f.sent)
+            for c in emitted:
+                if c == f.cmd or c in enter or c in exit_ or c in self.mon.get("c07_verbatim", ()):
+                    continue
+                st.tags.add("synthesised:" + c.split(" ")[0])
+                self._c07_check_cmd(c, f)
+            if f.kind == "gcode" and f.episode1 and self._c06_modes().get(f.code) in ("first", "last"):
+                self.mon["c07_verbatim"] = tuple(sorted(set(self.mon.get("c07_verbatim", ())) | {f.cmd}))
 
     # ------------------------------------------------------------------------------ reporting
     def _detail(self, f):
